@@ -4,5 +4,5 @@ CONSTANTS
   MaxAttrs = 3
   OptIds = {1, 4}
 SPECIFICATION Spec
-INVARIANTS ModelHeaderDescribesBody ModelRoundTrip ModelGapIsReal Emit
+INVARIANTS ModelHeaderDescribesBody ModelRoundTrip Emit
 CHECK_DEADLOCK FALSE
